@@ -476,6 +476,11 @@ class Master(loader.Loader):
                 )
 
                 self._update_task(app, servername, why=None)
+            for app in correct & current:
+                # Same server, but identity / expiry may have been re-evaluated.
+                self.backend.update(os.path.join(placement_node, app),
+                                    self._placement_data(app),
+                                    check_content=True)
 
         self._save_placement(placement)
         self.up_to_date = True
